@@ -132,15 +132,19 @@ def anyGraph (x : TG) (t : Nat) (rank : Nat) (axis : AxisArg) (keepdims : Bool) 
 
 /-! ## reductions of nullable integer arrays: nulls are replaced by the neutral element, the result is not nullable -/
 
+/-- `where(null, fill, v)` on data of dtype `acc`: `where` routes unsigned operands through int64 and casts back. -/
+def whereFill (acc : Nat) (null : TG) (fill : Int) (v : TG) : TG :=
+  if isUnsignedCode acc then .cast acc (.sel null (iscalar fill) (.cast 7 v)) else .sel null (iscalar fill) v
+
 /-- `sum(x)` for nullable `x` with fields `values`, `null`: `astype` to the accumulator, `where(null, 0, values)`, reduce. -/
 def sumNullableGraph (values null : TG) (t : Nat) (rank : Nat) (axis : AxisArg) (keepdims : Bool) : Option TG :=
   (accCode t 13).map (fun acc =>
-    viaI64 acc (reduceCore .sum keepdims axis rank) (.sel null (iscalar 0) (astypeG t acc values)))
+    viaI64 acc (reduceCore .sum keepdims axis rank) (whereFill acc null 0 (astypeG t acc values)))
 
 /-- `prod(x)` for nullable `x`: `where(null, 1, values)`. -/
 def prodNullableGraph (values null : TG) (t : Nat) (rank : Nat) (axis : AxisArg) (keepdims : Bool) : Option TG :=
   (accCode t 12).bind (fun acc => if acc = 13 then none else
-    some (viaI64 acc (reduceCore .prod keepdims axis rank) (.sel null (iscalar 1) (astypeG t acc values))))
+    some (viaI64 acc (reduceCore .prod keepdims axis rank) (whereFill acc null 1 (astypeG t acc values))))
 
 namespace Spec
 
